@@ -98,6 +98,9 @@ struct WorkerReport {
     samples: Vec<(u64, Value)>,
     violations: Vec<(u64, Value, Violation, u64)>,
     wall_s: f64,
+    /// order-independent digest over (scenario index, event-log hash, #violations)
+    #[serde(default)]
+    run_digest: u64,
 }
 
 fn big_stack<T: Send + 'static>(f: impl FnOnce() -> T + Send + 'static) -> T {
@@ -144,6 +147,7 @@ fn worker_main(
         }
         let out = run_guarded(check, &scenario, &mut rep.stats);
         rep.evaluations += 1;
+        rep.run_digest = rep.run_digest.wrapping_add(crate::mix(crate::mix(i, out.log_hash), out.violations.len() as u64));
         if out.nontrivial {
             rep.nontrivial += 1;
             distinct.insert(out.log_hash);
@@ -465,12 +469,14 @@ fn supervise(check: &'static dyn Check, tier: Tier) -> i32 {
     let mut distinct: BTreeSet<u64> = BTreeSet::new();
     let mut samples: Vec<(u64, Value)> = Vec::new();
     let mut viols: Vec<(u64, Value, Violation, u64, bool)> = Vec::new();
+    let mut run_digest = 0u64;
     for shard in 0..workers {
         let p = dir.join(format!("report-{shard}.json"));
         if let Ok(b) = std::fs::read(&p) {
             match serde_json::from_slice::<WorkerReport>(&b) {
                 Ok(r) => {
                     stats.merge(&r.stats);
+                    run_digest = run_digest.wrapping_add(r.run_digest);
                     evaluations += r.evaluations;
                     nontrivial += r.nontrivial;
                     distinct.extend(r.distinct);
@@ -596,6 +602,7 @@ fn supervise(check: &'static dyn Check, tier: Tier) -> i32 {
     coverage.insert("schedules_distinct".into(), json!(stats.schedules.len()));
     coverage.insert("components".into(), check.components());
     coverage.insert("workers".into(), json!(workers));
+    coverage.insert("run_digest".into(), json!(format!("{run_digest:016x}")));
     coverage.insert("violation_classes".into(), json!(classes.len()));
     coverage.insert("known_findings_hit".into(), json!(known_lines.len()));
     for (k, v) in check.extra_coverage(&stats, tier) {
@@ -611,7 +618,7 @@ fn supervise(check: &'static dyn Check, tier: Tier) -> i32 {
         "wall_s": wall,
         "violations": new_violation_lines.len(),
     });
-    let evdir = verif_dir().join("evidence");
+    let evdir = std::env::var("VERIF_EVIDENCE_DIR").map(PathBuf::from).unwrap_or_else(|_| verif_dir().join("evidence"));
     let _ = std::fs::create_dir_all(&evdir);
     std::fs::write(
         evdir.join(format!("{id}.json")),
